@@ -48,3 +48,15 @@ fn cut(mut s: String, at: usize) -> String {
     let (l, _r) = s.split_at(at);
     l.to_string()
 }
+
+fn pick(nodes: Vec<u64>, h: usize) -> u64 {
+    if nodes.is_empty() {
+        0
+    } else {
+        nodes[h % nodes.len()]
+    }
+}
+
+fn pick_unguarded(nodes: Vec<u64>, h: usize) -> u64 {
+    nodes[h % nodes.len()]
+}
